@@ -264,7 +264,8 @@ def pair_sites(ctx, repo):
         if len(apps) == 1 and isinstance(apps[0].args[0], ast.BinOp) and isinstance(apps[0].args[0].op, ast.Add):
             l, r = text(apps[0].args[0].left), text(apps[0].args[0].right)
             ok = l.endswith(".vector") and r.endswith(".costs") and l.split(".")[0] == r.split(".")[0]
-        ctx.check(ok, "R2", "Results.table", where(mod, fn), "each row is vector + costs of one and the same individual", key="lock-step")
+        ctx.check3(True if ok else (False if (len(apps) == 1 and isinstance(apps[0].args[0], ast.BinOp)) else None), "R2", "Results.table", where(mod, fn), "each row is vector + costs of one and the same individual",
+                   "a table row combines %s: parameters and costs of different individuals (or not vector + costs)" % (text(apps[0].args[0]) if apps else ""), "row construction not recognised", key="lock-step")
 
 
 # ------------------------------------------------------------------ R4
